@@ -5,6 +5,7 @@ import PRV.Driver.C11
 import PRV.Driver.C07
 import PRV.Driver.C12
 import PRV.Driver.C17
+import PRV.Driver.C18
 
 open PRV.Driver
 
@@ -20,4 +21,5 @@ def main (args : List String) : IO UInt32 := do
   | ["model", "c12"] => run C12.machine; return 0
   | ["monitor", "c12"] => runMonitor C12.monitor; return 0
   | ["model", "c17"] => run C17.machine; return 0
+  | ["model", "c18"] => run C18.machine; return 0
   | _ => IO.eprintln "usage: prvdrv (model|spec) <property>"; return 2
